@@ -23,7 +23,7 @@ from typing import Any, Callable, Dict, Iterator, List, Optional, Tuple
 
 import z3
 
-from vc.common import Obl, Undecided
+from vc.common import Obl, Undecided, _has_quantifier
 from vc.pyvc.values import (
     BoundMethod,
     Closure,
@@ -121,9 +121,11 @@ class Engine:
         if cond is True or cond is None:
             if not st.pc:
                 return True
+        # only the quantifier-free part of the path condition is used: dropping hypotheses can only keep
+        # MORE paths (sound), and satisfiability with quantified hypotheses is what makes solvers hang
         s = z3.Solver()
         s.set('timeout', self.feas_timeout_ms)
-        s.add(*st.pc)
+        s.add(*[c for c in st.pc if not _has_quantifier(c)])
         if cond is not None and cond is not True:
             s.add(cond)
         self.solver_calls += 1
@@ -247,7 +249,8 @@ class Engine:
             frame[p.arg] = kwargs[p.arg] if p.arg in kwargs else kwd.get(p.arg)
         fname = getattr(fn, '__qualname__', getattr(fn, '__name__', '<lambda>'))
         self._fn_stack.append(fname)
-        self._loop_counter.append({})
+        loops = sorted((n for n in ast.walk(node) if isinstance(n, (ast.For, ast.While))), key=lambda n: (n.lineno, n.col_offset))
+        self._loop_counter.append({(n.lineno, n.col_offset): i for i, n in enumerate(loops)})
         try:
             st = st.fork()
             st.locals = frame
@@ -521,21 +524,19 @@ class Engine:
         raise Undecided('del statement')
 
     # ---- loops
-    def _loop_key(self) -> Tuple[str, int]:
-        ctr = self._loop_counter[-1]
-        n = ctr.get(0, 0)
-        ctr[0] = n + 1
-        return (self._fn_stack[-1], n)
+    def _loop_key(self, node) -> Tuple[str, int]:
+        # loops are numbered in source order within their function
+        return (self._fn_stack[-1], self._loop_counter[-1][(node.lineno, node.col_offset)])
 
     def st_While(self, node, st):
-        key = self._loop_key()
+        key = self._loop_key(node)
         spec = self.loop_specs.get(key)
         if spec is None or spec.invariant is None:
             raise Undecided(f'while loop {key} has no invariant')
         return self._loop_with_invariant(node, st, key, spec, None)
 
     def st_For(self, node, st):
-        key = self._loop_key()
+        key = self._loop_key(node)
         spec = self.loop_specs.get(key)
         outs: List[Tuple[State, Any]] = []
         for k, s, it in self.ev(node.iter, st):
@@ -616,6 +617,8 @@ class Engine:
         outs: List[Tuple[State, Any]] = []
         tag = f'{key[0]}.loop{key[1]}'
         zero = T.lift(0)
+        st = st.fork()
+        st.ghost[f'entry:{tag}'] = st  # invariants may refer to the state at loop entry
         # 1. initiation
         for i, c in enumerate(spec.invariant(st, zero if seq else None)):
             self.oblige(st, f'{tag}.inv_init[{i}]', c)
@@ -772,11 +775,11 @@ class Engine:
                     s.heap[recv.id] = SList(o.length, (z3.Store(o.cols[0], i, T.lift(v)),), 0, o.kind, o.elem_bool)
                     outs.append((s, None))
                 else:
-                    # negative indices are python-legal; they are outside the verified subset
-                    neg = z3.And(T.lt(i, 0), T.le(T.neg(o.length), i))
-                    if self.feasible(s, neg):
-                        raise Undecided('possibly negative list index in a store')
                     outs.append((s, ('raise', ExcVal(IndexError))))
+            # negative indices are python-legal (they wrap); the verified code never relies on that, so
+            # non-negativity is a safety obligation rather than a modelled behaviour
+            if not isinstance(ix, int) or ix < 0:
+                self.oblige(st, f'{self._fn_stack[-1] if self._fn_stack else ""}.list_index_nonnegative', T.le(0, i))
             return outs
         raise Undecided(f'item store on heap object {type(o).__name__}')
 
@@ -813,7 +816,37 @@ class Engine:
         yield (OK, st, v)
 
     def ex_JoinedStr(self, node, st):
-        self.note_drop('f-string contents (value is an opaque string; embedded expressions not evaluated)')
+        # format strings: only the simple pieces (names, attributes, len(), constants) are evaluated so
+        # that struct format strings keep their structure; everything else is an opaque string piece
+        parts: List[Any] = []
+        simple = True
+        for v in node.values:
+            if isinstance(v, ast.Constant):
+                parts.append(v.value)
+                continue
+            e = v.value
+            ok = isinstance(e, (ast.Name, ast.Constant)) or (isinstance(e, ast.Attribute) and isinstance(e.value, ast.Name)) or (
+                isinstance(e, ast.Call) and isinstance(e.func, ast.Name) and e.func.id == 'len' and len(e.args) == 1 and isinstance(e.args[0], (ast.Name, ast.Attribute))
+            )
+            if not ok or v.format_spec is not None or v.conversion != -1:
+                simple = False
+                break
+            try:
+                res = list(self.ev(e, st.fork()))
+            except Undecided:
+                simple = False
+                break
+            if len(res) != 1 or res[0][0] != OK:
+                simple = False
+                break
+            parts.append(('val', res[0][2]))
+        if simple and all(isinstance(p, str) or (isinstance(p[1], (int, str)) and not isinstance(p[1], bool)) for p in parts):
+            yield (OK, st, ''.join(p if isinstance(p, str) else str(p[1]) for p in parts))
+            return
+        if simple:
+            yield (OK, st, Opaque('fstr', parts))
+            return
+        self.note_drop('f-string contents of messages (value is an opaque string; embedded expressions not evaluated)')
         yield (OK, st, Opaque('str'))
 
     def ex_Name(self, node, st):
@@ -956,10 +989,9 @@ class Engine:
                 if ok:
                     yield (OK, s, self.list_get(o, i))
                 else:
-                    neg = z3.And(T.lt(i, 0), T.le(T.neg(o.length), i))
-                    if self.feasible(s, neg):
-                        raise Undecided('possibly negative list index')
                     yield (RAISE, s, ExcVal(IndexError))
+            if not isinstance(ix, int) or ix < 0:
+                self.oblige(st, f'{self._fn_stack[-1] if self._fn_stack else ""}.list_index_nonnegative', T.le(0, i))
             return
         if isinstance(o, SDict):
             key = self.idx(ix)
@@ -1477,6 +1509,16 @@ class Engine:
             if name == 'append':
                 s = st.fork()
                 v = args[0]
+                if isinstance(v, Ref) and isinstance(s.heap[v.id], Obj):
+                    import dataclasses as _dc
+
+                    rec = s.heap[v.id]
+                    if not _dc.is_dataclass(rec.cls):
+                        raise Undecided('append of an object to a list')
+                    v = tuple(rec.fields[f.name] for f in _dc.fields(rec.cls))
+                    o.elem_cls = rec.cls  # type: ignore[attr-defined]
+                if isinstance(v, tuple) and not o.ncols and z3.is_int_value(z3.simplify(o.length)) and z3.simplify(o.length).as_long() == 0 if isinstance(T, IntMath) else False:
+                    o = SList(o.length, tuple(z3.K(T.sort(), T.lift(0)) for _ in v), len(v), o.kind)
                 if o.ncols:
                     if not isinstance(v, tuple) or len(v) != o.ncols:
                         raise Undecided('append of a non-tuple to a tuple list')
